@@ -274,7 +274,13 @@ def dims_for(t: dict) -> Lattice:
     if has(t, "Hmac", "HmacMandatory"):
         d.append(Dim("hmackey", ["A", "B"]))
     if has(t, "CtrInitVector"):
-        d.append(Dim("iv", ["A", "B", "self-chosen"]))
+        # source of the counter IV: explicit (two patterns), omitted in the configuration, omitted in
+        # the class-constructor API (both documented as "a random value is used")
+        d.append(Dim("iv", ["A", "B", "omitted-config", "omitted-ctor"]))
+    if has(t, "Ivt", "IvtZeroTotalLength"):
+        # the same settings handed to the class constructor (create_mbi_class(...)(app=..., ...)) instead
+        # of load_from_config
+        d.append(Dim("api", ["config", "ctor"]))
     groups = []
     if has(t, "CertBlockV1"):
         d += [Dim("rsa", RSA_SIZES), Dim("depth", [1, 2, 3, 4]), Dim("roots", ROOT_SETS),
@@ -412,6 +418,7 @@ def make_config(case: dict, wd: str, seed: int) -> tuple[dict, dict]:
         k = hmac_key(o["hmackey"], seed)
         cfg["outputImageEncryptionKeyFile"] = k.hex()
         exp["user_key"] = k
+    exp["api"] = "ctor" if (o.get("api") == "ctor" or o.get("iv") == "omitted-ctor") else "config"
     if "iv" in o:
         iv = ctr_iv(o["iv"], seed)
         if iv is not None:
@@ -573,6 +580,27 @@ def build(cfg: dict, wd: str):
     return obj
 
 
+CTOR_KWARGS = ("app", "app_table", "load_address", "trust_zone", "cert_block", "signature_provider",
+               "user_hw_key_enabled", "key_store", "hmac_key", "image_version", "firmware_version",
+               "image_subtype", "manifest")
+
+
+def via_ctor(donor: Any, t: dict, explicit_iv: Optional[bytes]):
+    """The class-constructor API of the repository's own tests: create_mbi_class(name, family)(**kwargs)
+    with the settings of `donor` (an object loaded from the configuration, never exported).  The counter
+    IV is passed only when the case makes it explicit; otherwise the builder has to choose one."""
+    from spsdk.image.mbi.mbi import create_mbi_class
+
+    cls = create_mbi_class(t["cls"], t["fam"], t["rev"])
+    kw: dict[str, Any] = {"family": donor.family, "revision": donor.revision}
+    for name in CTOR_KWARGS:
+        if hasattr(donor, name):
+            kw[name] = getattr(donor, name)
+    if explicit_iv is not None:
+        kw["ctr_init_vector"] = explicit_iv
+    return cls(**kw)
+
+
 def snapshot(p: Any) -> dict:
     """The settings of an MBI object that the statement calls 'the same settings'."""
     MISSING = "<absent>"
@@ -630,6 +658,8 @@ def execute(case: dict, wd: str, seed: int, want: tuple = ("parse", "reexport", 
         # ---- build + export
         try:
             obj = build(cfg, wd)
+            if exp["api"] == "ctor":
+                obj = via_ctor(obj, exp["triple"], exp.get("iv"))
             img = obj.export()
             ob["image"] = bytes(img)
             ob["built"] = snapshot(obj)
